@@ -19,7 +19,7 @@ RULE = ("histories: one encoder object and one destination packing reused "
 LEVEL_ASSUMPTIONS = [
     "model vlib/oracles/ibl.py written from the module documentation "
     "(validated on the documented Liu-Teng example at start-up)"]
-REQUIRED = {"concurrent_model_decodes": 20000, "model_comparisons": 1000, "history_dirty_dest": 500,
+REQUIRED = {"manybins_decodes": 10, "concurrent_model_decodes": 20000, "model_comparisons": 1000, "history_dirty_dest": 500,
             "pair_history_decodes": 20000, "pair_instances": 8,
             "hugearea_decodes": 20, "staircase_decodes": 18,
             "model_down_and_left": 200, "model_earlier_bin_used": 50,
@@ -36,7 +36,10 @@ def plan(tier: str, seed: int):
             {"name": "hugearea", "engine": "jit",
              "args": {"mode": "hugearea", "steps": 12}, "timeout": 900},
             {"name": "threads", "engine": "jit", "timeout": 900,
-             "args": {"mode": "threads", "n": 6}}]
+             "args": {"mode": "threads", "n": 6}},
+            {"name": "manybins", "engine": "jit", "timeout": 900,
+             "args": {"mode": "manybins",
+                      "sizes": [130, 300, 1100, 4200, 10400]}}]
     return [{"name": f"s{i}", "engine": "jit", "args": {"n": 1500},
              "timeout": 3000} for i in range(12)] + [
         {"name": f"p{i}", "engine": "jit", "args": {
@@ -46,7 +49,11 @@ def plan(tier: str, seed: int):
          "args": {"mode": "hugearea", "steps": 40}, "timeout": 3000}
         for i in range(4)] + [
         {"name": f"threads{i}", "engine": "jit", "timeout": 3000,
-         "args": {"mode": "threads", "n": 40}} for i in range(2)]
+         "args": {"mode": "threads", "n": 40}} for i in range(2)] + [
+        {"name": f"manybins{i}", "engine": "jit", "timeout": 3000,
+         "args": {"mode": "manybins",
+                  "sizes": [130, 260, 520, 1100, 2100, 4200, 10400, 20000,
+                            33000]}} for i in range(2)]
 
 
 def _enc(inst, e):
@@ -197,6 +204,77 @@ def hugearea_shard(ctx, args):
             ctx.count("staircase_decodes", 3)
 
 
+def manybins_shard(ctx, args):
+    """Thousands of bins open at once: one partly filled first bin, then N
+    objects that fill a bin each, then small objects whose prescribed place
+    is beside the first object (encoding 2 tries all open bins starting
+    with the first; encoding 1 only the last). The model is too slow for N
+    bins, so the expectation is derived: the blockers fill bins 2..N+1 in
+    order, and the rows of the other objects are the model's rows for the
+    instance WITHOUT the blockers (encoding 2), shifted for encoding 1."""
+    from moptipyapps.binpacking2d.instance import Instance
+    from moptipyapps.binpacking2d.packing import Packing
+    rng = ctx.rng
+    todo = args["sizes"]
+    if "case" in args:
+        todo = [args["case"]["N"]]
+    for N in todo:
+        W = int(rng.integers(8, 14))
+        H = int(rng.integers(8, 14))
+        a = int(rng.integers(W // 2 + 1, W - 2))      # first object: a x H
+        sw = int(rng.integers(1, W - a + 1))
+        sh = int(rng.integers(1, H // 2 + 1))
+        k = int(rng.integers(2, 4))
+        if "case" in args:
+            c = args["case"]
+            W, H, a, sw, sh, k = (c[q] for q in ("W", "H", "a", "sw", "sh",
+                                                 "k"))
+        # item 1: a x H (once), item 2: W x H (N times), item 3: sw x sh
+        inst = Instance(wb._name(rng), W, H,
+                        [[a, H, 1], [W, H, N], [sw, sh, k]])
+        perm = [1] + [2] * N + [3] * k
+        small = {"name": "r", "W": W, "H": H,
+                 "items": [[a, H, 1], [sw, sh, k]], "cls": "manybins"}
+        for e in (1, 2):
+            y = Packing(inst)
+            y.fill(-1)
+            ctx.case()
+            _enc(inst, e).decode(wb.x_array(perm, inst), y)
+            rows = wb.rows_of(y)
+            ctx.count("manybins_decodes")
+            ctx.seen_max("max_open_bins", N + 1)
+            if e == 2:
+                mrows, mk, _st = ibl.decode(W, H, small["items"],
+                                            [1] + [2] * k, first_fit=True)
+                want = [mrows[0]] + [[2, b, 0, 0, W, H]
+                                     for b in range(2, N + 2)] + [
+                    [3, r[1], *r[2:]] for r in mrows[1:]]
+                wk = N + 1 if mk == 1 else None
+            else:
+                mrows, mk, _st = ibl.decode(W, H, [[sw, sh, k]], [1] * k,
+                                            first_fit=False)
+                # encoding 1 only looks at the last bin, which is full
+                want = [[1, 1, 0, 0, a, H]] + [[2, b, 0, 0, W, H]
+                                               for b in range(2, N + 2)] + [
+                    [3, r[1] + N + 1, *r[2:]] for r in mrows]
+                wk = N + 1 + mk
+            if wk is None:
+                ctx.count("manybins_expectation_not_derivable")
+                continue
+            if rows != want or y.n_bins != wk:
+                diff = next((i for i, (p, q) in enumerate(zip(rows, want))
+                             if p != q), None)
+                ctx.violation(
+                    f"decode-differs-from-documented-rule:enc{e}",
+                    f"enc{e} with {N + 1} open bins: row {diff} is "
+                    f"{rows[diff] if diff is not None else None}, the "
+                    f"documented rule gives "
+                    f"{want[diff] if diff is not None else None}; n_bins "
+                    f"{y.n_bins} vs {wk}",
+                    {"kind": "manybins", "W": W, "H": H, "a": a, "sw": sw,
+                     "sh": sh, "k": k, "N": N, "enc": e})
+
+
 def threads_shard(ctx, args):
     """Each thread owns its encoders and destination packings; the threads
     decode permutations of one instance, and of a sibling instance with the
@@ -262,6 +340,8 @@ def threads_shard(ctx, args):
 def run_shard(ctx, args):
     if args.get("mode") == "threads":
         return threads_shard(ctx, args)
+    if args.get("mode") == "manybins":
+        return manybins_shard(ctx, args)
     if args.get("mode") == "pairs":
         return pairs_shard(ctx, args)
     if args.get("mode") == "hugearea":
@@ -477,5 +557,7 @@ def replay_threads(ctx, case):
 def replay(ctx, case):
     if case.get("kind") == "threads":
         return replay_threads(ctx, case)
+    if case.get("kind") == "manybins":
+        return manybins_shard(ctx, {"sizes": [], "case": case})
     steps = [(p, m, we, wd) for p, m, we, wd in case["history"]]
     run_history(ctx, case["desc"], case["enc"], steps)
